@@ -211,6 +211,44 @@ def compilation_histories(ctx, S, nprog):
     ctx.count("compilation histories sharing subroutines across two specs: agree", n_ok)
 
 
+def default_spec_history(ctx, kernel_ns):
+    """the architecture a user gets from ArchSpec() with no arguments: a program compiled with it and without it, then ANOTHER default
+    spec is created and extended in place (the idiom of gemini.logical.get_spec), then both kernels run for the first, untouched spec"""
+    from bloqade.geometry.dialects.grid import Grid
+    from bloqade.shuttle.arch import ArchSpec
+    S0 = ArchSpec()
+    zone0 = S0.layout.static_traps.get("traps")
+    src = ("@move{DEC}\ndef main(n: int):\n    z = spec.get_static_trap(zone_id=\"traps\")\n    init.fill([z])\n    gate.top_hat_cz(z)\n"
+           "    i = 0\n    for i in range(n):\n        gate.local_rz(0.5, z[0:2, 0:1])\n")
+    try:
+        ms = {dec: kernels.define(src.replace("{DEC}", dec), S=S0, **kernel_ns)["main"] for dec in ("", "(arch_spec=S)", "(arch_spec=S, fold=False)", "(fold=False)")}
+        other = ArchSpec()
+        other.layout.static_traps["traps"] = Grid.from_positions([500.0, 501.0, 502.0, 503.0], [70.0, 71.0])
+        other.layout.static_traps["extra"] = Grid.from_positions([900.0], [900.0])
+        other.float_constants["pitch"] = 1.0
+    except Exception as e:
+        ctx.obligation("the default architecture can be used", False, f"{type(e).__name__}: {e}"[:200])
+        return
+    want_zone = tc.PosTable().show(zone0) if zone0 is not None else "?"
+    for dec, m in ms.items():
+        st, evs, extra = events.run_events(m, (2,), S0, plain="arch_spec" in dec)
+        ctx.evaluations += 1
+        got = text_of(evs)
+        want = [f"fill [{want_zone}]"] + [t for t in got[1:2]] + got[2:]
+        ok = st == "ok" and len(got) == 4 and got[0] == f"fill [{want_zone}]" and got[1].startswith(f"cz {want_zone} ")
+        if not ok:
+            ctx.fail({"kind": "events-depend-on-compilation-history", "route": "default ArchSpec()" + dec, "history": "another default spec extended in place"},
+                     {"default_spec_src": src.replace("{DEC}", dec), "history": ["S0 = ArchSpec()", "compile with and without arch_spec=S0", "other = ArchSpec(); other.layout.static_traps['traps'] = <another grid>", "run for S0"]},
+                     f"@move{dec} compiled for the default ArchSpec(): after ANOTHER default spec was extended in place the kernel run for the first one executes "
+                     f"{(got[0] if got else extra)[:100]} instead of filling the default zone {want_zone[:60]}")
+        else:
+            ctx.nt(("default-spec", dec))
+    if S0.layout.static_traps.get("traps") is not zone0 or "extra" in S0.layout.static_traps or "pitch" in S0.float_constants:
+        ctx.fail({"kind": "events-depend-on-compilation-history", "route": "default ArchSpec()", "history": "two default specs share tables"},
+                 {"default_spec_src": src, "history": ["S0 = ArchSpec()", "other = ArchSpec(); extend other in place", "look at S0"]},
+                 "two specs built by ArchSpec() share their tables: extending one in place changed the other")
+
+
 def twin_device_functions(ctx, S, kernel_ns):
     """several device functions built from ONE tweezer kernel with different tone lists, called with equal arguments in the same
     direction (forward and reversed, straight-line and in a loop): every route plays, for each call, the tones written in the source"""
@@ -285,6 +323,23 @@ HEUR = {}        # program term -> {subroutine: AggressiveUnroll.inline_heuristi
 
 # ---------- fixed programs whose event COUNT or zone operands depend on shapes and on which of two equal-looking zones is taken ----------
 SHAPE_PROGS = {
+    # every way of writing the two buffers of top_hat_cz (positional, keyword, mixed, either order)
+    "top-hat-cz-call-forms": ("(zone: grid.Grid[Literal[3], Literal[2]], c: bool)", """
+    z = spec.get_static_trap(zone_id="traps")
+    gate.top_hat_cz(z)
+    gate.top_hat_cz(z, 1.5)
+    gate.top_hat_cz(z, 1.5, 2.5)
+    gate.top_hat_cz(z, upper_buffer=1.25)
+    gate.top_hat_cz(z, lower_buffer=2.25)
+    gate.top_hat_cz(z, 1.75, lower_buffer=2.75)
+    gate.top_hat_cz(z, lower_buffer=0.5, upper_buffer=4.5)
+    if c:
+        gate.top_hat_cz(zone, 0.25, lower_buffer=0.75)
+    gate.local_r(0.5, 0.25, z)
+    gate.local_r(rotation_angle=0.25, axis_angle=0.5, zone=z)
+    gate.local_rz(zone=z, rotation_angle=0.125)
+    gate.global_r(rotation_angle=0.375, axis_angle=0.625)
+"""),
     # loop bounds taken from the length of a grid the type checker knows the literal shape of (a 3 x 2 zone passed as an argument)
     "lengths-of-typed-grids": ("(zone: grid.Grid[Literal[3], Literal[2]], c: bool)", """
     reg = filled.vacate(zone, [(0, 0)])
@@ -451,6 +506,7 @@ def run(ctx):
     compilation_histories(ctx, S, ctx.pick(10, 80))
     same_name_subroutines(ctx, S, kernel_ns)
     twin_device_functions(ctx, S, kernel_ns)
+    default_spec_history(ctx, kernel_ns)
     shape_programs(ctx, S, kernel_ns)
     # ---- Coq: the source-level semantics of Model.MoveLang on the same programs ----
     byprog = {}
@@ -524,6 +580,17 @@ def reflect_purity(ctx):
 
 def replay(data):
     inp = data["input"]
+    if "default_spec_src" in inp:
+        class C:
+            def __init__(s): s.fails, s.evaluations = [], 0
+            def fail(s, sig, rep, what): s.fails.append(what)
+            def nt(s, *a): pass
+            def obligation(s, n, ok, log=""):
+                if not ok: s.fails.append(n)
+        c = C()
+        tw_src = "".join(f"@tweezer\ndef {n}{sig}:{body}\n" for n, (sig, body, _) in move_prog.TWEEZERS.items())
+        default_spec_history(c, {k: v for k, v in kernels.define(tw_src).items() if k in move_prog.TWEEZERS})
+        return bool(c.fails), (c.fails or ["the default architecture is not shared"])[0][:200]
     if "shape_prog" in inp:
         class C:
             def __init__(s): s.fails, s.evaluations = [], 0
